@@ -782,9 +782,13 @@ def iter_axis(img, axis, asarray=False):
     True
     """
     rimg = rollimg(img, axis)
+    if asarray:
+        # slice the data directly: rimg[i] of a 1-d image is a bare 0-d value
+        # without get_fdata()
+        data = rimg.get_fdata()
     for i in range(rimg.shape[0]):
         if asarray:
-            yield rimg[i].get_fdata()
+            yield np.asanyarray(data[i])
         else:
             yield rimg[i]
 
